@@ -91,9 +91,14 @@ def project_state(draw, compliant_bias=True, max_files=7, git=None, expr_depth=1
                 f["dotlic"] = draw(info(idpool, True))
             if gkind == "toml" and draw(st.booleans()):
                 f["table"] = dict(draw(info(idpool, True)), prec=draw(st.sampled_from(["closest", "aggregate", "override"])))
+                if f["own"] and f["own"]["lic"] and draw(st.integers(0, 2)) == 0:
+                    # the table repeats what the file says itself (two sources, one expression)
+                    f["table"]["lic"] = list(f["own"]["lic"])
             if gkind == "dep5" and draw(st.booleans()):
                 i2 = draw(info(idpool))
                 f["para"] = {"cop": i2["cop"], "lic": [i2["lic"][0]]}
+                if f["own"] and len(f["own"]["lic"]) == 1 and draw(st.integers(0, 2)) == 0:
+                    f["para"]["lic"] = list(f["own"]["lic"])
         files.append(f)
     if use_git:
         # .gitignore is a covered file like any other
